@@ -4,7 +4,7 @@
 //! pair a10 hands it -> the bytes and the length the kernel reports back ->
 //! init must give the original address. The kernel side is modelled from
 //! ip(7), ipv6(7) and unix(7) (and net/unix/af_unix.c `unix_validate_addr` /
-//! `unix_mkname_bsd`): it is cross-checked against the real kernel by C16b.
+//! `unix_mkname_bsd`): the same conversions run against the real kernel in C13.
 
 use std::mem::MaybeUninit;
 use std::net::{Ipv4Addr, Ipv6Addr, SocketAddr, SocketAddrV4, SocketAddrV6};
@@ -157,6 +157,59 @@ fn unix_show(a: &UnixAddr) -> String {
     }
 }
 
+/// IPv6 addresses: uniformly random ones and the ranges with a special
+/// meaning (IPv4-mapped, IPv4-compatible, NAT64, 6to4, loopback, unspecified,
+/// link-local, multicast), which code is tempted to treat specially.
+fn ip6() -> impl Strategy<Value = [u8; 16]> {
+    let embed = |prefix: [u8; 12]| {
+        any::<[u8; 4]>().prop_map(move |v4| {
+            let mut ip = [0u8; 16];
+            ip[..12].copy_from_slice(&prefix);
+            ip[12..].copy_from_slice(&v4);
+            ip
+        })
+    };
+    prop_oneof![
+        6 => any::<[u8; 16]>(),
+        3 => embed([0, 0, 0, 0, 0, 0, 0, 0, 0, 0, 0xff, 0xff]),
+        1 => embed([0; 12]),
+        1 => embed([0, 0x64, 0xff, 0x9b, 0, 0, 0, 0, 0, 0, 0, 0]),
+        1 => any::<[u8; 4]>().prop_map(|v4| {
+            let mut ip = [0u8; 16];
+            ip[0] = 0x20;
+            ip[1] = 0x02;
+            ip[2..6].copy_from_slice(&v4);
+            ip
+        }),
+        1 => Just(Ipv6Addr::LOCALHOST.octets()),
+        1 => Just(Ipv6Addr::UNSPECIFIED.octets()),
+        1 => any::<[u8; 8]>().prop_map(|id| {
+            let mut ip = [0u8; 16];
+            ip[0] = 0xfe;
+            ip[1] = 0x80;
+            ip[8..].copy_from_slice(&id);
+            ip
+        }),
+        1 => (0u8..16, any::<[u8; 4]>()).prop_map(|(scope, group)| {
+            let mut ip = [0u8; 16];
+            ip[0] = 0xff;
+            ip[1] = scope;
+            ip[12..].copy_from_slice(&group);
+            ip
+        }),
+    ]
+}
+
+fn ip4() -> impl Strategy<Value = [u8; 4]> {
+    prop_oneof![
+        6 => any::<[u8; 4]>(),
+        1 => Just([0, 0, 0, 0]),
+        1 => Just([127, 0, 0, 1]),
+        1 => Just([255, 255, 255, 255]),
+        1 => any::<[u8; 3]>().prop_map(|t| [224, t[0], t[1], t[2]]),
+    ]
+}
+
 pub struct C16;
 
 impl Property for C16 {
@@ -166,8 +219,8 @@ impl Property for C16 {
     fn strategy(_tier: Tier) -> BoxedStrategy<Case> {
         let path_byte = prop_oneof![8 => 0x21u8..0x7f, 1 => 0x80u8..=0xff, 1 => 1u8..0x20];
         prop_oneof![
-            2 => (any::<[u8; 4]>(), any::<u16>(), any::<bool>()).prop_map(|(ip, port, either)| Case::V4 { ip, port, either }),
-            3 => (any::<[u8; 16]>(), any::<u16>(), prop_oneof![Just(0u32), any::<u32>()], prop_oneof![Just(0u32), any::<u32>()], any::<bool>()).prop_map(|(ip, port, flow, scope, either)| Case::V6 { ip, port, flow, scope, either }),
+            2 => (ip4(), prop_oneof![4 => any::<u16>(), 1 => Just(0u16)], any::<bool>()).prop_map(|(ip, port, either)| Case::V4 { ip, port, either }),
+            3 => (ip6(), any::<u16>(), prop_oneof![Just(0u32), any::<u32>()], prop_oneof![Just(0u32), any::<u32>()], any::<bool>()).prop_map(|(ip, port, flow, scope, either)| Case::V6 { ip, port, flow, scope, either }),
             4 => proptest::collection::vec(path_byte, 1..=107).prop_map(|path| Case::UnixPath { path }),
             1 => Just(Case::UnixPath { path: vec![b'p'; 107] }),
             4 => proptest::collection::vec(any::<u8>(), 0..=107).prop_map(|name| Case::UnixAbstract { name }),
@@ -225,10 +278,10 @@ impl Property for C16 {
     }
 
     fn rule() -> &'static str {
-        "proptest over all IPv4/IPv6 addresses, ports, flow labels, scope ids (as SocketAddrV4/V6 and as either-family SocketAddr), Unix pathnames of 1..107 arbitrary non-NUL bytes, abstract names of 0..107 arbitrary bytes (NULs allowed) and the unnamed address. Oracle: into_storage + as_ptr give the (bytes, length) the kernel receives; a model of the Linux rules computes what the kernel keeps and the length it reports (sizeof sockaddr_in/in6; offsetof(sun_path)+strlen+1 for pathnames, also tried without the NUL; the passed length for abstract names; offsetof for unnamed); init on those bytes with that length must equal the original; as_ptr length must be exactly the structure size for IP; as_mut_ptr must cover the whole storage. Non-trivial = Unix address, or IPv6 with non-zero flow/scope. Distinct = distinct cases."
+        "proptest over all IPv4/IPv6 addresses (uniform ones and the special ranges: IPv4-mapped, IPv4-compatible, NAT64, 6to4, loopback, unspecified, link-local, multicast), ports, flow labels, scope ids (as SocketAddrV4/V6 and as either-family SocketAddr), Unix pathnames of 1..107 arbitrary non-NUL bytes, abstract names of 0..107 arbitrary bytes (NULs allowed) and the unnamed address. Oracle: into_storage + as_ptr give the (bytes, length) the kernel receives; a model of the Linux rules computes what the kernel keeps and the length it reports (sizeof sockaddr_in/in6; offsetof(sun_path)+strlen+1 for pathnames, also tried without the NUL; the passed length for abstract names; offsetof for unnamed); init on those bytes with that length must equal the original; as_ptr length must be exactly the structure size for IP; as_mut_ptr must cover the whole storage. Non-trivial = Unix address, or IPv6 with non-zero flow/scope. Distinct = distinct cases."
     }
 
     fn assumptions() -> Vec<&'static str> {
-        vec!["the kernel-side length rule is modelled from unix(7)/af_unix.c; it is cross-checked against the real kernel by the real-socket sub-check (C16b) where available"]
+        vec!["the kernel-side length rule is modelled from unix(7)/af_unix.c; the same conversions are exercised against the real kernel by C13's stream and datagram families (bind/local_addr/peer_addr/accept/recv_from over IPv4, IPv6, IPv4-mapped IPv6, Unix path and abstract addresses compared with getsockname/getpeername)"]
     }
 }
